@@ -152,7 +152,7 @@ let print_ev (ghost : bool) (e : ev) : string option =
         (pn i) (pn sn.sn_counter) (pn sn.sn_buffered) (pb evf) (pn evn) (pb sef) (pn sen) (pb erf) (pn ern) (pb def) (pn den) (pb deh)
         (pn sn.sn_systems) (pn sn.sn_taken) (pn sn.sn_ereactors) (pn sn.sn_data)
         (commas pn sn.sn_tables) (commas pn sn.sn_keys) (pn sn.sn_dead)
-        (commas pn (List.sort compare sn.sn_alive |> List.map (fun x -> x)))
+        (commas string_of_int (List.sort compare (List.map int_of_n sn.sn_alive)))
         (commas (fun (x, e) -> Printf.sprintf "%s:%s" (pn x) (pe e))
            (List.sort (fun (a, b) (c, d) -> compare (int_of_n a, int_of_n b) (int_of_n c, int_of_n d)) sn.sn_xlocal)))
   | EvSetup k -> if ghost then Some ("ghost setup " ^ pn k) else None
